@@ -112,3 +112,16 @@ def synteny_tuples(nleaves, menu):
     for tup in itertools.product(menu, repeat=nleaves):
         if canonical_first_appearance(tup):
             yield tup
+
+
+def chain_shapes(n):
+    """plane binary shapes with n leaves whose internal nodes form one chain (every internal node has at most one
+    internal child): the deepest object trees of their size (2^(n-2) shapes)"""
+    def is_chain(sh):
+        if sh is None:
+            return True
+        l, r = sh
+        if l is not None and r is not None:
+            return False
+        return is_chain(l) and is_chain(r)
+    return [sh for sh in binary_shapes(n) if is_chain(sh)]
